@@ -383,6 +383,13 @@ func maybeNamedDeep(t *rapid.T, ty desc.T) desc.T {
 	return ty
 }
 
+// finishScalar applies the cross-cutting choices of every scalar generator:
+// named (defined) types and handing the argument over through a pointer.
+func finishScalar(t *rapid.T, c *ScalarCase) {
+	c.T = maybeNamedDeep(t, c.T)
+	c.ViaPtr = rapid.IntRange(0, 5).Draw(t, "viaPtr") == 0
+}
+
 func (g *structGen) scalarField(name string) (desc.F, desc.V) {
 	kind := rapid.SampledFrom(g.scalarKinds).Draw(g.t, "kind")
 	v := genScalar(g.t, kind, "val", true)
